@@ -110,7 +110,17 @@ def composite_codec_get_coded_const_prefix(codec: CompositeCodec,
         else:
             break
 
-    return encode_state.coded_message
+    # only the bytes which are completely covered by constant
+    # parameters are part of the prefix: if the constants are not
+    # located at the beginning of the PDU or if they share a byte
+    # with non-constant parameters, the prefix ends there
+    num_prefix_bytes = 0
+    for used_mask_byte in encode_state.used_mask:
+        if used_mask_byte != 0xff:
+            break
+        num_prefix_bytes += 1
+
+    return encode_state.coded_message[:num_prefix_bytes]
 
 
 def composite_codec_encode_into_pdu(codec: CompositeCodec, physical_value: Optional[ParameterValue],
